@@ -300,9 +300,76 @@ pub fn weight_strategy() -> impl Strategy<Value = f32> {
 pub fn range_from(pool: Vec<(u8, u8)>, min: usize, max: usize) -> impl Strategy<Value = RangeSpec> {
     let max = max.min(pool.len());
     let min = min.min(max);
-    (proptest::sample::subsequence(pool, min..=max), proptest::collection::vec(weight_strategy(), max), any::<bool>()).prop_map(|(cs, ws, uniform)| RangeSpec {
-        combos: cs.iter().enumerate().map(|(i, c)| (c.0, c.1, if uniform { 1.0 } else { ws[i] })).collect(),
+    // weight modes: 0-3 all weights 1, 4-9 independent palette weights, 10-11 "nearly flat": one
+    // base weight and its neighbouring f32 values (0-3 ulps away)
+    (proptest::sample::subsequence(pool, min..=max), proptest::collection::vec(weight_strategy(), max), 0u8..12, proptest::collection::vec(0u32..4, max)).prop_map(|(cs, ws, mode, ulps)| RangeSpec {
+        combos: cs
+            .iter()
+            .enumerate()
+            .map(|(i, c)| {
+                let w = match mode {
+                    0..=3 => 1.0,
+                    4..=9 => ws[i],
+                    _ => {
+                        let base = if ws[0] > 0.001 { ws[0] } else { 0.3 };
+                        let b = base.to_bits();
+                        let v = f32::from_bits(if base >= 1.0 { b - ulps[i] } else { b + ulps[i] });
+                        v.min(1.0)
+                    }
+                };
+                (c.0, c.1, w)
+            })
+            .collect(),
     })
+}
+
+/// The f32 values a product of the given weights can take, whichever order or association the
+/// multiplications use (each operation rounded to f32), plus the correctly rounded exact product.
+/// For up to 4 factors; None for more (callers fall back to a tolerance).
+pub fn product_candidates(ws: &[f32]) -> Option<Vec<u32>> {
+    let n = ws.len();
+    if n > 4 {
+        return None;
+    }
+    let mut out: Vec<u32> = vec![];
+    let exact: f64 = ws.iter().map(|w| *w as f64).product();
+    out.push((exact as f32).to_bits());
+    // all subsets: results[mask] = set of values obtainable for that sub-multiset
+    let full = (1usize << n) - 1;
+    let mut res: Vec<Vec<u32>> = vec![vec![]; full + 1];
+    for i in 0..n {
+        res[1 << i].push(ws[i].to_bits());
+    }
+    for mask in 1..=full {
+        if mask.count_ones() < 2 {
+            continue;
+        }
+        let mut v: Vec<u32> = vec![];
+        let mut a = (mask - 1) & mask;
+        while a > 0 {
+            let b = mask & !a;
+            if a < b {
+                for x in &res[a] {
+                    for y in &res[b] {
+                        v.push((f32::from_bits(*x) * f32::from_bits(*y)).to_bits());
+                    }
+                }
+            }
+            a = (a - 1) & mask;
+        }
+        v.sort_unstable();
+        v.dedup();
+        res[mask] = v;
+    }
+    if n == 0 {
+        out.push(1.0f32.to_bits());
+    } else {
+        out.extend(res[full].iter().copied());
+        // starting from the literal 1.0 does not change anything: 1.0 * x == x exactly
+    }
+    out.sort_unstable();
+    out.dedup();
+    Some(out)
 }
 
 pub fn pool_pairs(cards: &[u8]) -> Vec<(u8, u8)> {
